@@ -551,6 +551,27 @@ def h_or_insert(kind):
     return h
 
 
+def u_or_insert(kind):
+    """the same entry points on a path that ends in the container's own panic (no room for the new entry): like
+    the direct `map.insert(k, f())`, the closure of a vacant entry has run -- exactly once -- before that"""
+    def h(ctx, p):
+        nm = ctx.body.name
+        ev = entry_variant(p)
+        if ev is None or ev[0] == 'occ':
+            return
+        ctx.classes['vacant-refused'] += 1
+        want = 'Default::default' if kind == 'default' else 'call_once'
+        calls = _user_calls(p, 'call_once') + _user_calls(p, 'Default::default')
+        ok = len(calls) == 1 and calls[0][1].endswith(want)
+        ctx.req('ARMCALL', ok, nm + ':vacant-refused',
+                'on a vacant entry the closure (or Default) runs exactly once, also when the insertion is then refused '
+                'for lack of room (as with map.insert(k, f()))', p)
+    return h
+
+
+UNWIND_HANDLERS = {}
+
+
 def h_entry_key(ctx, p):
     """Entry::key(): the stored key of the occupied slot / the key the vacant entry was created with"""
     nm = 'key'
@@ -3145,6 +3166,27 @@ def check_root(E, body, rr):
                 if e[0] == 'variant-val':
                     p.variant_fields[e[2]] = e[3]
             fn(ctx, p)
+        uh = UNWIND_HANDLERS.get(key)
+        if uh is not None:
+            uctx = Ctx(E, body, set(uh[0]))
+            for kind, s, val in rr.outcomes:
+                if kind != 'unwind':
+                    continue
+                origin = [e for e in s.events if e and e[0] == 'panic']
+                if not origin or origin[-1][1] == 'user':
+                    continue        # a panic of user code: not the container's refusal
+                p = Path(E, body, s, UNIT, first, dict(tags))
+                p.self0 = self0
+                p.subjects_all = subj
+                p.args0 = rr.args
+                p.idx0 = None
+                p.variant_fields = {}
+                for e in s.events:
+                    if e[0] == 'variant-val':
+                        p.variant_fields[e[2]] = e[3]
+                uh[1](uctx, p)
+            for c2, n2 in uctx.classes.items():
+                ctx.classes[c2] += n2
         digest['classes'] = dict(ctx.classes)
         digest['paths'] = len(rets)
         if getattr(E, 'part_order', None):
@@ -3171,3 +3213,11 @@ def check_root(E, body, rr):
                     'vacuously' % c, 'unproven', props=sorted(ih[0]), sample='%d iterations of class %s' % (ic.get(c, 0), c))
     E.chain = []
     return digest
+
+
+
+UNWIND_HANDLERS.update({
+    (ENT, None, 'or_insert_with'): ({'C11'}, u_or_insert('with')),
+    (ENT, None, 'or_insert_with_key'): ({'C11'}, u_or_insert('with_key')),
+    (ENT, None, 'or_default'): ({'C11'}, u_or_insert('default')),
+})
